@@ -509,7 +509,7 @@ Qed.
 
 (* ---- the Aho-Corasick container ---- *)
 Definition ac_matched (t : text) (m : list (text * bitmap)) : list bitmap :=
-  flat_map (fun kb => match fst kb with [] => [] | _ => if substring (fst kb) t then [snd kb] else [] end) m.
+  flat_map (fun kb => match fst kb with [] => [] | _ => if kw_found (fst kb) t then [snd kb] else [] end) m.
 
 Lemma fold_bm_or_mem x l : forall a, bm_mem x (fold_left bm_or l a) = bm_mem x a || existsb (bm_mem x) l.
 Proof.
